@@ -1108,3 +1108,8 @@ func verifRoundTripNextHop(a *PathAttributeNextHop) bool {
 //@ func NewLsPrefixTLVs
 //@   claims at-call
 //@   at-call ^append(lsTLVs, &LsTLVIPReachability requires lenIpPrefix*8 >= prefixSize && lenIpPrefix*8 < prefixSize + 8
+// the Graceful Restart capability has 4 flag bits and a 12-bit restart time (RFC 4724 3): whatever time is handed in,
+// the flag bits that go out are the flags (a time above 4095 does not set the R or N bit)
+//@ func (*CapGracefulRestart).Serialize
+//@   claims at-call
+//@   at-call ^binary.BigEndian.PutUint16(buf[0:] requires int(arg2) / 4096 == int(c.Flags) % 16
